@@ -86,6 +86,16 @@ pub mod vio {
         spec fn calls(&self) -> nat;
         spec fn fault_free(&self) -> bool;
 
+        /// std::io::Write::write: may accept any prefix of `buf` (at least one byte of a non-empty buffer on Ok)
+        fn write(&mut self, buf: &[u8]) -> (r: Result<usize>)
+            ensures
+                final(self).fault_free() == old(self).fault_free(),
+                final(self).calls() == old(self).calls() + 1,
+                old(self).fault_free() ==> r is Ok,
+                r matches Ok(n) ==> n <= buf@.len() && (buf@.len() > 0 ==> n > 0)
+                    && final(self).written() == old(self).written() + buf@.subrange(0, n as int),
+                r is Err ==> final(self).written() == old(self).written();
+
         fn write_all(&mut self, buf: &[u8]) -> (r: Result<()>)
             ensures
                 final(self).fault_free() == old(self).fault_free(),
